@@ -431,12 +431,10 @@ func runC10(c *core.Ctx) {
 
 	// (3) real binary
 	c10L1(c)
-	if !c.Quick() {
-		c10Gigabyte(c)
-	}
+	c10Gigabyte(c)
 }
 
-// c10Gigabyte (thorough tier): a log of more than 1 GiB streamed through a pipe; the last day carries a
+// c10Gigabyte: a log of more than 1 GiB streamed through a pipe; the last day carries a
 // sentinel food that must be in the report.
 func c10Gigabyte(c *core.Ctx) {
 	day := "2021/01/24:\n  " + strings.Repeat("f", 230) + ": 1\n  water: 2\n\n" // 256 bytes
@@ -444,7 +442,10 @@ func c10Gigabyte(c *core.Ctx) {
 		day += strings.Repeat("\n", 256-len(day)%256)
 	}
 	days := (1<<30)/len(day) + 4
-	for _, args := range [][]string{{"-l", "/dev/stdin", "report", "quantity"}, {"-d", "/dev/null", "-l", "/dev/stdin", "reg", "-s", "sentinel"}} {
+	for ai, args := range [][]string{{"-l", "/dev/stdin", "report", "quantity"}, {"-d", "/dev/null", "-l", "/dev/stdin", "reg", "-s", "sentinel"}} {
+		if ai > 0 && c.Quick() {
+			break // the quick tier streams the gigabyte once
+		}
 		cmd := exec.Command(c.HR, args...)
 		cmd.Env = run.BaseEnv()
 		cmd.Dir = c.Work
